@@ -356,12 +356,25 @@ def drive(inp):
             env.sched_cb = I.scheduled_event_trigger(SEv)
             env.ts_cbs = []
             env.ts_wfds = []
-            for _ in range(inp["ntrig"]):
-                env.ts_cbs.append(I.threadsafe_event_trigger(Ev))
-                env.ts_wfds.append(env.pipes_made[-1][1])       # the write end of the pipe it just made
+
+            def make_triggers():
+                for _ in range(inp["ntrig"]):
+                    env.ts_cbs.append(I.threadsafe_event_trigger(Ev))
+                    env.ts_wfds.append(env.pipes_made[-1][1])       # the write end of the pipe it just made
+            # "lazy_ts": the (single) threadsafe trigger is created only when the history first needs it, between two
+            # items -- typically after requests have already waited -- instead of before the first request
+            lazy = bool(inp.get("lazy_ts")) and inp["ntrig"] == 1
+            if not lazy:
+                make_triggers()
+
+            def uses_ts(item):
+                steps = [item[1]] if item[0] == "env" else item[2]
+                return any(s[0] in ("ts", "tsappend", "tswrite") for s in steps)
             for idx, item in enumerate(inp["hist"]):
                 if idx < early:
                     continue
+                if lazy and not env.ts_cbs and uses_ts(item):
+                    make_triggers()
                 if item[0] == "env":
                     env.perform(item[1])
                     continue
@@ -811,7 +824,8 @@ class _Gen:
             while early < len(self.hist) and self.hist[early][0] == "env" and self.hist[early][1][0] == "arrive":
                 early += 1
         return {"enc": self.enc, "mode": self.mode, "paste": self.paste, "ntrig": self.ntrig, "nev": self.nev,
-                "threaded": self.threaded, "hist": self.hist, "early": early, "dtss": rng.random() < 0.4}
+                "threaded": self.threaded, "hist": self.hist, "early": early, "dtss": rng.random() < 0.4,
+                "lazy_ts": self.ntrig == 1 and rng.random() < 0.6}
 
 
 def _burst_case(rng, size):
